@@ -369,3 +369,154 @@ pub fn c05_run(opts: &crate::Opts, out: &mut Out) {
     out.stat(&format!("mutations_{}", GROUP), nmut);
     out.stat("distinct_classes", classes.len());
 }
+
+// ---------------------------------------------------------------------------------------------------------------
+// C16: decoding and verification never panic, and finish in time proportional to the input (runs over both groups)
+// ---------------------------------------------------------------------------------------------------------------
+fn action_name(a: VerifyAction) -> &'static str {
+    match a {
+        VerifyAction::VerifyOnly => "verifyOnly",
+        VerifyAction::RecoverAndVerify => "recoverAndVerify",
+        VerifyAction::RecoverOnly => "recoverOnly",
+    }
+}
+
+/// a syntactically valid proof encoding with chosen shape and point classes
+fn hostile_bytes(t: usize, rounds: usize, slot_class: &dyn Fn(usize) -> u8, rng: &mut (impl RngCore + rand_core::CryptoRng)) -> Vec<u8> {
+    // slot_class(i) for point slot i (0 = A, 1 = A1, 2 = B, 3.. = L0, R0, L1, ...): 0 valid point, 1 identity, 2 undecodable
+    let mut b = vec![t as u8];
+    for _ in 0..t {
+        b.extend_from_slice(Scalar::random(rng).as_bytes());
+    }
+    let mut slot = 0usize;
+    let mut point = |b: &mut Vec<u8>, rng: &mut dyn FnMut() -> u64| {
+        match slot_class(slot) {
+            0 => b.extend_from_slice(other_point(rng()).compress().as_fixed_bytes()),
+            1 => b.extend_from_slice(&[0u8; 32]),
+            _ => b.extend_from_slice(&undecodable()),
+        }
+        slot += 1;
+    };
+    let mut ctr = 5000u64;
+    let mut next = || {
+        ctr += 1;
+        ctr
+    };
+    for _ in 0..3 {
+        point(&mut b, &mut next);
+    }
+    b.extend_from_slice(Scalar::random(rng).as_bytes());
+    b.extend_from_slice(Scalar::random(rng).as_bytes());
+    for _ in 0..2 * rounds {
+        point(&mut b, &mut next);
+    }
+    b
+}
+
+pub fn c16_run(opts: &crate::Opts, out: &mut Out) {
+    let mut rng = chacha(opts.seed, 16);
+    let mut classes = std::collections::BTreeSet::new();
+    let mut worst_ms = 0u128;
+    let mut ncalls = 0u64;
+    // (1) decoder on arbitrary bytes
+    let ndec = if opts.thorough { 20000 } else { 2000 };
+    for i in 0..ndec {
+        let l = match i % 4 {
+            0 => (rng.next_u32() % 64) as usize,
+            1 => 1 + 32 * (rng.next_u32() % 30) as usize,
+            2 => (rng.next_u32() % 2000) as usize,
+            _ => 1 + 32 * (7 + 2 * (rng.next_u32() % 8) as usize),
+        };
+        let mut b = vec![0u8; l];
+        rng.fill_bytes(&mut b);
+        if l > 0 && i % 2 == 0 {
+            b[0] = (rng.next_u32() % 8) as u8;
+        }
+        let r = std::panic::catch_unwind(|| Proof::from_bytes(&b).is_ok());
+        out.oracle("C16:decode-no-panic", r.is_ok(), &format!("{} decode len={}", GROUP, l), &format!("bytes={}", hex(&b)));
+        ncalls += 1;
+    }
+    // (2) verification over the cross product proof shape x statement shape x mode
+    let round_set: Vec<usize> = if opts.thorough { vec![1, 2, 3, 4, 5, 6, 7, 8, 9, 10, 11, 12, 13, 40, 70, 1 << 12] } else { vec![1, 2, 3, 5, 6, 7, 8, 13, 40, 70, 1 << 10] };
+    let stmt_shapes: Vec<(usize, usize, usize, usize)> = if opts.thorough {
+        vec![(1, 2, 2, 1), (2, 1, 1, 2), (4, 2, 4, 3), (8, 4, 4, 1), (16, 8, 8, 2), (64, 1, 1, 6), (64, 2, 4, 1), (64, 32, 32, 1), (32, 4, 8, 4)]
+    } else {
+        vec![(1, 2, 2, 1), (2, 1, 1, 2), (4, 2, 4, 3), (8, 4, 4, 1), (64, 1, 2, 6), (64, 2, 2, 1)]
+    };
+    let cap_ms: u128 = 4000;
+    for &(n, m, cap, t) in &stmt_shapes {
+        let inst = random_inst(n, m, cap, t, 4, false, &mut rng);
+        let stmt = inst.statement();
+        let seeded = random_inst(n, 1, cap, t, 4, true, &mut rng);
+        for &rounds in &round_set {
+            for pt in 0..(if GROUP == "ristretto" && !opts.thorough { 3 } else { 6 }) {
+                let t_proof = if pt == 5 { 1 + (t % 6) } else { t };
+                // point classes: all valid; identity at a chosen slot; undecodable at a chosen slot
+                let nslots = 3 + 2 * rounds;
+                let bad_slot = (rounds * 7 + pt) % nslots;
+                let class = move |i: usize| -> u8 {
+                    match pt {
+                        1 if i == bad_slot => 1,
+                        2 if i == bad_slot => 2,
+                        3 if i == 0 => 1,
+                        4 if i == nslots - 1 => 2,
+                        _ => 0,
+                    }
+                };
+                let bytes = hostile_bytes(t_proof, rounds, &class, &mut rng);
+                let Ok(Ok(proof)) = std::panic::catch_unwind(|| Proof::from_bytes(&bytes)) else {
+                    out.oracle("C16:decode-no-panic", false, &format!("{} shape rounds={} t={}", GROUP, rounds, t_proof), "well-formed encoding refused or panicked");
+                    continue;
+                };
+                let points_ok = pt == 0 || pt == 5;
+                for (who, st, iseed) in [("plain", &stmt, false), ("seeded", &seeded.statement(), true)] {
+                    if iseed && (m != 1 || rounds > 12) {
+                        continue;
+                    }
+                    let mm = if iseed { 1 } else { m };
+                    for action in ACTIONS {
+                        let key = format!("{} stmt=({},{},{},{}) {} proof=(t={},rounds={},points={}) action={}", GROUP, n, mm, cap, t, who, t_proof, rounds, pt, action_name(action));
+                        let t0 = std::time::Instant::now();
+                        let tr = if iseed { seeded.transcript() } else { inst.transcript() };
+                        let r = std::panic::catch_unwind(std::panic::AssertUnwindSafe(|| Proof::verify_batch(&mut [tr], std::slice::from_ref(st), std::slice::from_ref(&proof), action).is_ok()));
+                        let ms = t0.elapsed().as_millis();
+                        worst_ms = worst_ms.max(ms);
+                        ncalls += 1;
+                        out.oracle("C16:verify-no-panic", r.is_ok(), &key, &format!("panicked; proof={}", hex(&bytes[..bytes.len().min(300)])));
+                        out.oracle("C16:verify-time-bounded", ms < cap_ms, &key, &format!("{} ms for {} input bytes", ms, bytes.len()));
+                        classes.insert((n, mm, t, rounds, pt, action_name(action)));
+                        if let Ok(ok) = r {
+                            // model tie: control-flow verdict (a garbage proof is never valid; recover-only skips the check)
+                            out.req(
+                                format!("batch c=256 action={} nT=1 nP=1 members={},{},{},0,{},{},1,{},0,{}", action_name(action), n, t, mm, t_proof, rounds, points_ok as u8, iseed as u8),
+                                if ok { format!("ok masks={}", if iseed && action != VerifyAction::VerifyOnly { "1" } else { "0" }) } else { "err".to_string() },
+                            );
+                        }
+                    }
+                }
+            }
+        }
+    }
+    // (3) batch shapes: length mismatches and hostile members among valid ones
+    let base = random_inst(4, 2, 2, 2, 4, false, &mut rng);
+    let bstmt = base.statement();
+    let bproof = base.prove(&mut rng).unwrap();
+    let garbage = Proof::from_bytes(&hostile_bytes(2, 3, &|_| 0, &mut rng)).unwrap();
+    let garbage_bad = Proof::from_bytes(&hostile_bytes(2, 70, &|i| if i == 4 { 2 } else { 0 }, &mut rng)).unwrap();
+    for (k, nt, np) in [(0usize, 0usize, 0usize), (1, 0, 1), (1, 1, 0), (3, 3, 3), (3, 2, 3), (3, 3, 4), (5, 5, 5), (300, 300, 300)] {
+        for variant in 0..3 {
+            let proofs: Vec<Proof> = (0..np).map(|i| if variant == 1 && i == np / 2 { garbage.clone() } else if variant == 2 && i == np - 1 { garbage_bad.clone() } else { bproof.clone() }).collect();
+            let stmts: Vec<Stmt> = (0..k).map(|_| bstmt.clone()).collect();
+            let mut ts: Vec<Transcript> = (0..nt).map(|_| base.transcript()).collect();
+            for action in ACTIONS {
+                let r = std::panic::catch_unwind(std::panic::AssertUnwindSafe(|| Proof::verify_batch(&mut ts, &stmts, &proofs, action).is_ok()));
+                ncalls += 1;
+                out.oracle("C16:verify-no-panic", r.is_ok(), &format!("{} batch k={} nT={} nP={} variant={} action={}", GROUP, k, nt, np, variant, action_name(action)), "panicked");
+                classes.insert((k, nt, np, variant, 99, action_name(action)));
+            }
+        }
+    }
+    out.stat(&format!("calls_{}", GROUP), ncalls);
+    out.stat(&format!("worst_ms_{}", GROUP), worst_ms as u64);
+    out.stat("distinct_classes", classes.len());
+}
